@@ -137,7 +137,17 @@ ROL_SPECIAL = [0, 1, 0xFFF7, 0xFFF8, 0xFFFF, 0xFFFE, 0xFFFA, 0x7FFF, 0x8000]
 
 
 def apply_patches(img: bytearray, kinds, rng, fam: str, info: dict):
+    # truncation last: the other corruptions address the complete image
+    kinds = [k for k in kinds if k != "truncate"] + [k for k in kinds if k == "truncate"]
     for kind in kinds:
+        try:
+            apply_patch(img, kind, rng, fam, info)
+        except IndexError:
+            pass  # a corruption that would fall beyond the (already shortened) image is skipped
+
+
+def apply_patch(img: bytearray, kind, rng, fam: str, info: dict):
+    if True:
         if fam == "akai":
             used = [s for ch in info["chains"] for s in ch] or [3]
             if kind == "sat-special":
